@@ -670,6 +670,25 @@ class Interp:
                 isinstance(n, ast.FormattedValue) and n.format_spec is not None for n in node.values
             ):
                 yield st1, "".join(str(self.py_for_str(v)) for v in vs)
+            elif all(isinstance(v, (str, int)) and not isinstance(v, bool) for v in vs) and all(
+                not isinstance(n, ast.FormattedValue)
+                or (n.conversion == -1 and (n.format_spec is None or all(isinstance(p, ast.Constant) for p in n.format_spec.values)))
+                for n in node.values
+            ):
+                # concrete ints / strings with a literal format spec: CPython's format() is the model
+                out = []
+                for n, v in zip(node.values, vs):
+                    if isinstance(n, ast.FormattedValue) and n.format_spec is not None:
+                        try:
+                            out.append(format(v, "".join(p.value for p in n.format_spec.values)))
+                        except ValueError as e:
+                            out = None
+                            yield st1, self.models.exc("ValueError", str(e))
+                            break
+                    else:
+                        out.append(str(v))
+                if out is not None:
+                    yield st1, "".join(out)
             else:
                 yield st1, Opaque("fstring")
 
